@@ -119,6 +119,13 @@ struct Fail {                      // bundles the failure reporting of one case
   }
 };
 
+// a library call that dies with a signal is a failure of the case, not of the harness
+template <class Fn> static bool safe(const Fail& fl, Fn f) {
+  int sg = mc::crashed(f);
+  if (sg) { fl.ctx.fail(fl.key + " crash", "library call died with signal " + fmti(sg), fl.with("crash")); return false; }
+  return true;
+}
+
 // ================================================================================================== magnetic
 struct MagSpec {
   std::string name; int NM, NC, norm; bool normkey; double a, t0, dt0; std::vector<CSet> sets;   // NM models, 1 secular variation, NC constant
@@ -214,7 +221,7 @@ static void sub_magnetic(Ctx& ctx, bool T) {
           ctx.sig((uint64_t)(NM * 1000 + NC * 500 + nk * 100 + itr * 10) + (t < ms.t0 ? 1 : t >= ms.t0 + (NM - 1) * ms.dt0 ? 2 : 3));
           MagRef ref = mag_ref(ms, Nt, Mt, t, Q(gp[0]), Q(gp[1]), Q(gp[2]));
           double B[3] = {SENT, SENT, SENT}, Bt[3] = {SENT, SENT, SENT};
-          M.FieldGeocentric(t, gp[0], gp[1], gp[2], B[0], B[1], B[2], Bt[0], Bt[1], Bt[2]);
+          if (!safe(fl, [&] { M.FieldGeocentric(t, gp[0], gp[1], gp[2], B[0], B[1], B[2], Bt[0], Bt[1], Bt[2]); })) continue;
           fl.vec("magnetic.geocentric.B", "field", "FieldGeocentric B", B, ref.B);
           fl.vec("magnetic.geocentric.Bt", "rate", "FieldGeocentric dB/dt", Bt, ref.Bt);
           if (ctx.want_sample()) ctx.sample(fl.key);
@@ -222,7 +229,8 @@ static void sub_magnetic(Ctx& ctx, bool T) {
         // ---- operator() and Circle
         for (double lat : lats) for (double h : hs) {
           std::unique_ptr<MagneticCircle> circ;
-          circ.reset(new MagneticCircle(M.Circle(t, lat, h)));
+          { Fail fc{ctx, vkey + " t=" + fmt(t) + " lat=" + fmt(lat) + " h=" + fmt(h) + " Circle()", F};
+            if (!safe(fc, [&] { circ.reset(new MagneticCircle(M.Circle(t, lat, h))); })) continue; }
           for (double lon : lons) {
             Ctx::Case cas(ctx);
             Fail fl{ctx, vkey + " t=" + fmt(t) + " lat=" + fmt(lat) + " lon=" + fmt(lon) + " h=" + fmt(h), F};
@@ -232,18 +240,18 @@ static void sub_magnetic(Ctx& ctx, bool T) {
             Q posB = Q(2 * EPS) * R * ref.B.sh, posBt = Q(2 * EPS) * R * ref.Bt.sh;       // rounding of the geocentric position
             sph::Sum rB = rotate(ref.B, g.e, g.n, g.u), rBt = rotate(ref.Bt, g.e, g.n, g.u);
             double b[3] = {SENT, SENT, SENT}, b2[3] = {SENT, SENT, SENT}, bt[3] = {SENT, SENT, SENT};
-            M(t, lat, lon, h, b[0], b[1], b[2]);
-            M(t, lat, lon, h, b2[0], b2[1], b2[2], bt[0], bt[1], bt[2]);
+            if (!safe(fl, [&] { M(t, lat, lon, h, b[0], b[1], b[2]); M(t, lat, lon, h, b2[0], b2[1], b2[2], bt[0], bt[1], bt[2]); })) continue;
             fl.vec("magnetic.enu.B", "field-enu", "operator() B(east,north,up)", b, rB, 2 * posB);
             fl.vec("magnetic.enu.B", "field-enu", "operator()(with rates) B", b2, rB, 2 * posB);
             fl.vec("magnetic.enu.Bt", "rate-enu", "operator() dB/dt", bt, rBt, 2 * posBt);
             // circle
             double c1[3] = {SENT, SENT, SENT}, c2[3] = {SENT, SENT, SENT}, ct[3] = {SENT, SENT, SENT}, G[3], Gt[3], G2[3], Gt2[3];
-            (*circ)(lon, c1[0], c1[1], c1[2]);
-            (*circ)(lon, c2[0], c2[1], c2[2], ct[0], ct[1], ct[2]);
-            circ->FieldGeocentric(lon, G[0], G[1], G[2], Gt[0], Gt[1], Gt[2]);
             double sl, cl; Math::sincosd(lon, sl, cl);
-            circ->FieldGeocentric(sl, cl, G2[0], G2[1], G2[2], Gt2[0], Gt2[1], Gt2[2]);
+            if (!safe(fl, [&] {
+              (*circ)(lon, c1[0], c1[1], c1[2]);
+              (*circ)(lon, c2[0], c2[1], c2[2], ct[0], ct[1], ct[2]);
+              circ->FieldGeocentric(lon, G[0], G[1], G[2], Gt[0], Gt[1], Gt[2]);
+              circ->FieldGeocentric(sl, cl, G2[0], G2[1], G2[2], Gt2[0], Gt2[1], Gt2[2]); })) continue;
             fl.vec("magnetic.circle.B", "circle-field", "MagneticCircle B(east,north,up)", c1, rB, 2 * posB);
             fl.vec("magnetic.circle.B", "circle-field", "MagneticCircle(with rates) B", c2, rB, 2 * posB);
             fl.vec("magnetic.circle.Bt", "circle-rate", "MagneticCircle dB/dt", ct, rBt, 2 * posBt);
@@ -584,7 +592,7 @@ static void sub_normalgravity(Ctx& ctx, bool T) {
   if (T) { sets.push_back({"oblate-0.5", 6378137, 3.986004418e14, 7.292115e-5, 0.5, true}); sets.push_back({"unit-f", 1, 1, 0.3, 0.2, true}); sets.push_back({"J2-jupiter-like", 7.1492e7, 1.26686534e17, 1.7585e-4, 0.014736, false}); }
   ctx.bound("normalgravity.sets", fmti((long long)sets.size()) + " parameter sets (a, GM, omega, f | J2): WGS84, GRS80 (J2), omega = 0, sphere (rotating and not), prolate, f = 0.1" + (T ? ", 0.5, unit systems, Jupiter-like J2" : ", unit system (J2)") + "; + the static WGS84()/GRS80() objects");
   ctx.bound("normalgravity.points", "U on 50 surface points (25 latitudes x 2 longitudes); gradient and divergence at 6 latitudes x 2 longitudes x heights {0, 1e3, 1e5, 1e7 m}(scaled by a) by 6th-order central differences (h = a/4096) of the library's own U and gamma; Somigliana at 25 latitudes; J_n series at r/a in {1.5, 2, 5}");
-  ctx.note("normalgravity tolerances are round-off claims: calibrated on the unchanged tree (worst observed in worst{normal.*}) and frozen as literals: U on the ellipsoid 64 eps, gradient by differences 4e-11, divergence 1e-9 |gamma|/r, Somigliana/J2/J_n 64 eps of the magnitudes involved");
+  ctx.note("normalgravity tolerances are round-off claims: calibrated on the unchanged tree (>= 4 x worst observed, see worst{normal.*}) and frozen as literals: 32 eps of the magnitudes involved (U: |GM|/b + omega^2 a^2; gamma: |GM|/a^2 + omega^2 a; J2/f: |f| + |J2| + m); gradient by 6th-order differences 1e-11 relative (worst observed 1.4e-12); divergence/curl 2e-11 gamma/a (worst observed 4e-12)");
   const double e = EPS;
   for (size_t is = 0; is < sets.size() + 2; ++is) {
     if (!ctx.take()) continue;
@@ -608,8 +616,8 @@ static void sub_normalgravity(Ctx& ctx, bool T) {
       Ctx::Case cas(ctx); Fail fl{ctx, "normalgravity " + name + " constants", F};
       double J2c = NormalGravity::FlatteningToJ2(a, P.GM, P.omega, f), fc = NormalGravity::J2ToFlattening(a, P.GM, P.omega, J2);
       Q m = Q(P.omega) * P.omega * a * a * b / P.GM, sc = sph::qabs(Q(f)) + sph::qabs(Q(J2)) + sph::qabs(m);
-      fl.num("normal.J2_of_f", "J2-f", "FlatteningToJ2(Flattening()) vs DynamicalFormFactor()", J2c, J2, Q(64 * e) * sc);
-      fl.num("normal.f_of_J2", "J2-f", "J2ToFlattening(DynamicalFormFactor()) vs Flattening()", fc, f, Q(64 * e) * sc);
+      fl.num("normal.J2_of_f", "J2-f", "FlatteningToJ2(Flattening()) vs DynamicalFormFactor()", J2c, J2, Q(32 * e) * sc);
+      fl.num("normal.f_of_J2", "J2-f", "J2ToFlattening(DynamicalFormFactor()) vs Flattening()", fc, f, Q(32 * e) * sc);
       fl.num("normal.Jn2", "Jn", "Jn(2) vs DynamicalFormFactor()", G.Jn(2), J2, Q(16 * e) * sph::qabs(Q(J2)));
       fl.num("normal.Jn0", "Jn", "Jn(0)", G.Jn(0), -1, 0);
       for (int n : {1, 3, 7}) fl.num("normal.Jnodd", "Jn", "Jn(odd)", G.DynamicalFormFactor(n), 0, 0);
@@ -618,11 +626,11 @@ static void sub_normalgravity(Ctx& ctx, bool T) {
         fl.num("normal.oracle.U0", "oracle", "SurfacePotential vs closed form", G.SurfacePotential(), ell->U0, Q(16 * e) * usc);
         fl.num("normal.oracle.gammae", "oracle", "EquatorialGravity vs closed form", G.EquatorialGravity(), ell->gammae, Q(16 * e) * gsc);
         fl.num("normal.oracle.gammap", "oracle", "PolarGravity vs closed form", G.PolarGravity(), ell->gammap, Q(16 * e) * gsc);
-        fl.num("normal.oracle.J2", "oracle", "DynamicalFormFactor vs closed form of Flattening()", J2, ell->J2, Q(64 * e) * sc);
+        fl.num("normal.oracle.J2", "oracle", "DynamicalFormFactor vs closed form of Flattening()", J2, ell->J2, Q(32 * e) * sc);
         for (int n = 4; n <= 20; n += 2) {
           Q Jn = ell->Jn(n), mag = 3 * powq(sph::qabs(Q(f) * (2 - Q(f))), n / 2) / (Q(n + 1) * Q(n + 3)) * (Q(n / 2 - 1) + (f != 0 ? 5 * Q(n / 2) * sph::qabs(ell->J2) / (Q(f) * (2 - Q(f))) : Q(0)));
           Fail fj = fl; fj.F.push_back({"n", fmti(n)});
-          fj.num("normal.oracle.Jn", "Jn", "DynamicalFormFactor(" + fmti(n) + ") vs H+M 2-92", G.DynamicalFormFactor(n), Jn, Q(64 * e) * mag);
+          fj.num("normal.oracle.Jn", "Jn", "DynamicalFormFactor(" + fmti(n) + ") vs H+M 2-92", G.DynamicalFormFactor(n), Jn, Q(32 * e) * mag);
         }
       }
       if (P.geometric && !stat) fl.num("normal.f_roundtrip", "J2-f", "Flattening() vs constructor f", f, P.fJ2, 0);
@@ -634,8 +642,8 @@ static void sub_normalgravity(Ctx& ctx, bool T) {
       fl.F.push_back({"f", fmt(ff)});
       double j = NormalGravity::FlatteningToJ2(a, P.GM, P.omega, ff), f2 = NormalGravity::J2ToFlattening(a, P.GM, P.omega, j);
       Q m = Q(P.omega) * P.omega * a * a * a / P.GM;
-      fl.num("normal.roundtrip", "J2-f", "J2ToFlattening(FlatteningToJ2(f))", f2, ff, Q(64 * e) * (sph::qabs(Q(ff)) + sph::qabs(Q(j)) + sph::qabs(m)) / (1 - Q(ff)));
-      if (ff >= 0 && ff < 0.95) { sph::ng::Ell E(Q(a), Q(P.GM), Q(P.omega), Q(ff)); fl.num("normal.oracle.J2_of_f", "oracle", "FlatteningToJ2 vs closed form", j, E.J2, Q(64 * e) * (sph::qabs(Q(ff)) + sph::qabs(E.J2) + sph::qabs(m))); }
+      fl.num("normal.roundtrip", "J2-f", "J2ToFlattening(FlatteningToJ2(f))", f2, ff, Q(32 * e) * (sph::qabs(Q(ff)) + sph::qabs(Q(j)) + sph::qabs(m)) / (1 - Q(ff)));
+      if (ff >= 0 && ff < 0.95) { sph::ng::Ell E(Q(a), Q(P.GM), Q(P.omega), Q(ff)); fl.num("normal.oracle.J2_of_f", "oracle", "FlatteningToJ2 vs closed form", j, E.J2, Q(32 * e) * (sph::qabs(Q(ff)) + sph::qabs(E.J2) + sph::qabs(m))); }
     }
     // ---- U constant on the ellipsoid, Somigliana
     for (int il = 0; il <= 24; ++il) {
@@ -646,22 +654,22 @@ static void sub_normalgravity(Ctx& ctx, bool T) {
         sph::Geo g = sph::geodetic(Q(a), Q(f), Q(lat), Q(lon), 0);
         double X = double(g.X), Y = double(g.Y), Z = double(g.Z), gx, gy, gz;
         double U = G.U(X, Y, Z, gx, gy, gz);
-        fl.num("normal.U_const_on_ellipsoid", "U-surface", "U(surface point, lon " + fmt(lon) + ") vs SurfacePotential()", U, U0, Q(64 * e) * usc);
+        fl.num("normal.U_const_on_ellipsoid", "U-surface", "U(surface point, lon " + fmt(lon) + ") vs SurfacePotential()", U, U0, Q(32 * e) * usc);
         // gravity is normal to the surface
         double gv[3] = {gx, gy, gz}; Q gq[3] = {gx, gy, gz};
-        fl.num("normal.gamma_normal", "gamma-normal", "east component of gamma on the surface", double(sph::dot3(gq, g.e)), 0, Q(64 * e) * gsc);
-        fl.num("normal.gamma_normal", "gamma-normal", "north component of gamma on the surface", double(sph::dot3(gq, g.n)), 0, Q(64 * e) * gsc);
-        fl.num("normal.surface_gravity", "somigliana", "-up component of gamma vs SurfaceGravity", double(-sph::dot3(gq, g.u)), G.SurfaceGravity(lat), Q(64 * e) * gsc);
+        fl.num("normal.gamma_normal", "gamma-normal", "east component of gamma on the surface", double(sph::dot3(gq, g.e)), 0, Q(32 * e) * gsc);
+        fl.num("normal.gamma_normal", "gamma-normal", "north component of gamma on the surface", double(sph::dot3(gq, g.n)), 0, Q(32 * e) * gsc);
+        fl.num("normal.surface_gravity", "somigliana", "-up component of gamma vs SurfaceGravity", double(-sph::dot3(gq, g.u)), G.SurfaceGravity(lat), Q(32 * e) * gsc);
         (void)gv;
       }
       Q ph = Q(lat) * sph::qpi() / 180, s = (il == 0 ? Q(-1) : il == 24 ? Q(1) : sinq(ph)), c = (il == 0 || il == 24) ? Q(0) : cosq(ph);
       Q som = (Q(a) * G.EquatorialGravity() * c * c + Q(b) * G.PolarGravity() * s * s) / sqrtq(Q(a) * a * c * c + Q(b) * b * s * s);
-      fl.num("normal.somigliana", "somigliana", "SurfaceGravity vs Somigliana closed form of gamma_e, gamma_p", G.SurfaceGravity(lat), som, Q(64 * e) * gsc);
+      fl.num("normal.somigliana", "somigliana", "SurfaceGravity vs Somigliana closed form of gamma_e, gamma_p", G.SurfaceGravity(lat), som, Q(32 * e) * gsc);
       double gy2, gz2, U2 = G.Gravity(lat, 0, gy2, gz2);
-      fl.num("normal.gravity_h0", "somigliana", "Gravity(lat, 0) gammaz vs -SurfaceGravity", gz2, -Q(G.SurfaceGravity(lat)), Q(64 * e) * gsc);
-      fl.num("normal.gravity_h0", "somigliana", "Gravity(lat, 0) gammay", gy2, 0, Q(64 * e) * gsc);
-      fl.num("normal.gravity_h0", "U-surface", "Gravity(lat, 0) U", U2, U0, Q(64 * e) * usc);
-      if (haveo) fl.num("normal.oracle.somigliana", "oracle", "SurfaceGravity vs closed form", G.SurfaceGravity(lat), ell->surface_gravity(Q(lat)), Q(64 * e) * gsc);
+      fl.num("normal.gravity_h0", "somigliana", "Gravity(lat, 0) gammaz vs -SurfaceGravity", gz2, -Q(G.SurfaceGravity(lat)), Q(32 * e) * gsc);
+      fl.num("normal.gravity_h0", "somigliana", "Gravity(lat, 0) gammay", gy2, 0, Q(32 * e) * gsc);
+      fl.num("normal.gravity_h0", "U-surface", "Gravity(lat, 0) U", U2, U0, Q(32 * e) * usc);
+      if (haveo) fl.num("normal.oracle.somigliana", "oracle", "SurfaceGravity vs closed form", G.SurfaceGravity(lat), ell->surface_gravity(Q(lat)), Q(32 * e) * gsc);
     }
     // ---- gradient of U = gamma, divergence = 2 omega^2 (0 for V0), by differences of the library's own values
     for (double lat : {-90.0, -45.0, 0.0, 30.0, 60.0, 90.0}) for (double lon : {0.0, 50.0}) for (double hh : {0.0, 1e3, 1e5, 1e7}) {
@@ -681,9 +689,9 @@ static void sub_normalgravity(Ctx& ctx, bool T) {
       fd6([&](double x, double y, double z, double* o) { G.U(x, y, z, o[0], o[1], o[2]); }, 3, X, Y, Z, step, dG);
       fd6([&](double x, double y, double z, double* o) { G.V0(x, y, z, o[0], o[1], o[2]); }, 3, X, Y, Z, step, dV);
       Q gm = sqrtq(Q(gam[0]) * gam[0] + Q(gam[1]) * gam[1] + Q(gam[2]) * gam[2]);
-      Q gtol = Q(4e-11) * gsc * (Q(a) / r) + Q(4e-11) * gm;
+      Q gtol = Q(1e-11) * gsc * (Q(a) / r) + Q(1e-11) * gm;
       for (int i = 0; i < 3; ++i) fl.num("normal.gradU_is_gamma", "gradient", std::string("dU/d") + "XYZ"[i] + " by differences vs gamma", dU[i], gam[i], gtol);
-      Q dtol = Q(1e-9) * (gsc / a);
+      Q dtol = Q(2e-11) * (gsc / a);
       fl.num("normal.div_gamma", "laplacian", "div gamma vs 2 omega^2", dG[0] + dG[4] + dG[8], 2 * Q(P.omega) * P.omega, dtol);
       fl.num("normal.div_Gamma", "laplacian", "div Gamma (V0 harmonic)", dV[0] + dV[4] + dV[8], 0, dtol);
       // the gradient is symmetric (curl-free)
@@ -692,12 +700,12 @@ static void sub_normalgravity(Ctx& ctx, bool T) {
         Q Uq = ell->U(Q(X), Q(Y), Q(Z)), gq[3];
         sph::grad_fd8([&](Q x, Q y, Q z) { return ell->U(x, y, z); }, Q(X), Q(Y), Q(Z), Q(r) * Q(1e-5), gq);
         fl.num("normal.oracle.U", "oracle", "U vs closed form (float128)", U, Uq, Q(32 * e) * usc);
-        for (int i = 0; i < 3; ++i) fl.num("normal.oracle.gamma", "oracle", std::string("gamma") + "XYZ"[i] + " vs gradient of the closed form", gam[i], gq[i], Q(64 * e) * gsc);
+        for (int i = 0; i < 3; ++i) fl.num("normal.oracle.gamma", "oracle", std::string("gamma") + "XYZ"[i] + " vs gradient of the closed form", gam[i], gq[i], Q(32 * e) * gsc);
       }
       double gy2, gz2, U2 = G.Gravity(lat, h, gy2, gz2); Q gq2[3] = {gam[0], gam[1], gam[2]};
       fl.num("normal.gravity_latlon", "gravity-enu", "Gravity(lat,h) U", U2, U, Q(16 * e) * usc);
-      fl.num("normal.gravity_latlon", "gravity-enu", "Gravity(lat,h) gammay vs north component", gy2, sph::dot3(gq2, g.n), Q(64 * e) * gsc);
-      fl.num("normal.gravity_latlon", "gravity-enu", "Gravity(lat,h) gammaz vs up component", gz2, sph::dot3(gq2, g.u), Q(64 * e) * gsc);
+      fl.num("normal.gravity_latlon", "gravity-enu", "Gravity(lat,h) gammay vs north component", gy2, sph::dot3(gq2, g.n), Q(32 * e) * gsc);
+      fl.num("normal.gravity_latlon", "gravity-enu", "Gravity(lat,h) gammaz vs up component", gz2, sph::dot3(gq2, g.u), Q(32 * e) * gsc);
       if (ctx.want_sample()) ctx.sample(fl.key);
     }
     // ---- zonal series with the library's own J_n reproduces the closed-form V0
@@ -715,7 +723,7 @@ static void sub_normalgravity(Ctx& ctx, bool T) {
       }
       double V0 = G.V0(X, Y, Z, t1, t2, t3);
       if (nan) ctx.fail(fl.key, "DynamicalFormFactor(n) is NaN for some even n <= 60 (the zonal coefficients of this ellipsoid are finite)", fl.with("Jn-nan"));
-      else fl.num("normal.Jn_series", "Jn-series", "V0 vs GM/r (1 - sum J_n (a/r)^n P_n), library J_n", V0, Q(P.GM) / r * s, Q(64 * e) * sph::qabs(Q(P.GM)) / r * mag);
+      else fl.num("normal.Jn_series", "Jn-series", "V0 vs GM/r (1 - sum J_n (a/r)^n P_n), library J_n", V0, Q(P.GM) / r * s, Q(32 * e) * sph::qabs(Q(P.GM)) / r * mag);
     }
   }
 }
